@@ -533,6 +533,18 @@ class TypeGen:
         elif special < 18 and cfg["init_false"]:
             f["kind"] = "init_false"
             has_default = True
+        if cfg.get("field_conv") and flavor == "dataclass" and agg is None and f.get("kind", "normal") == "normal" \
+                and not f.get("none_as_undefined") and chance(d, 0.2):
+            # a field converted at field level: Ver <-> VerObj (build.PRELUDE), also through Optional / List / Dict
+            ver = {"k": "std", "t": "ver"}
+            form = pick(d, ["ver", "ver", "opt", "list", "map"])
+            f["t"] = {"ver": ver, "opt": {"k": "opt", "of": ver}, "list": {"k": "list", "sp": pick(d, ["List", "Sequence"]), "of": ver},
+                      "map": {"k": "map", "sp": "Dict", "key": {"k": "str"}, "val": ver}}[form]
+            f["fconv"] = True
+            f.pop("default", None)
+            if has_default:
+                f["default"] = {"c": {"ver": ["std", "ver", pick(d, ["1.2", "1.0"])], "opt": ["none"], "list": ["list", []], "map": ["dict", []]}[form]}
+            has_default = False
         f["t"] = self.nolit(f["t"])
         if has_default and agg is not None and agg != "flatten":
             f["default"] = {"c": ["dict", []]}  # (a non-empty default would have to respect the key pattern)
@@ -637,6 +649,12 @@ STD_VALID = M.STD_IMAGES
 def valid(draw, prog: dict, t: dict, dyn: str = "id", fuel: int = 3, c: Optional[dict] = None, stack=()) -> Any:
     k = t["k"]
     if k == "std":
+        if t["t"] == "ver" and t.get("via") == "obj":  # through the field-level conversion from VerObj(a, b=0)
+            al = build.ALIASERS[dyn]
+            img = {al("a"): pick(draw, [1, 0, 3])}
+            if chance(draw, 0.7):
+                img[al("b")] = pick(draw, [2, 10, 0])
+            return img
         if t["t"] == "ver" and chance(draw, 0.4):
             return pick(draw, [[1, 2], [0, 10]])
         return pick(draw, STD_VALID[t["t"]])
@@ -736,6 +754,8 @@ def valid_object(draw, prog, t, dyn, fuel, stack) -> dict:
     for f in fields:
         agg = f.get("agg")
         ft = M.remove_none(f["t"]) if f.get("none_as_undefined") else f["t"]
+        if f.get("fconv"):
+            ft = M.fconv_type(ft)
         if agg is None:
             if M.is_required(f, cd) or (fuel > 0 and chance(draw, 0.6)):
                 out[M.ext_name(f, cd, dyn)] = valid(draw, prog, ft, dyn, fuel, f.get("c"), stack)
